@@ -94,4 +94,23 @@ META = {
   "note": "For unbalanced strings only no-panic and the required=false rule are asserted.",
   "technique": "property-based round-trip testing (rapid) + native go fuzzing with semantic oracle in the target",
  },
+
+ "C15": {
+  "text": "Generated documents over a shape-consistent key schema, 1-4 sources of kinds raw / file / arguments (explicit loader or the default one through os.Args), attached by generated option scripts (SetConfigLoader, AddConfigLoader, SetConfig; file loaders inside loader lists; a source re-added at the end); a reference deep merge in the contract sequence decides every leaf (two files may tie), checked through App.Get and prefix-bound fields.",
+  "design_ref": "DESIGN.md section 4, C15",
+  "note": "Viper's handling of map-vs-scalar conflicts and key case is third-party behaviour and generated around.",
+  "technique": "property-based testing (rapid): differential against a reference merge",
+ },
+ "C16": {
+  "text": "Generated tag texts with repeated, defaulted and nested placeholders over configurations whose values contain placeholders (chains, diamonds, cycles); an independent recursive resolver with a visiting set is the oracle for the value, prefix and wire carriers; termination is decided by counting configuration reads through a Binder wrapper against 100 x reference steps + 1000.",
+  "design_ref": "DESIGN.md section 4, C16",
+  "note": "Terminates = within the read budget; only complete placeholders inside configured values.",
+  "technique": "property-based testing (rapid): reference resolver oracle + deterministic step budget",
+ },
+ "C17": {
+  "text": "Round trip / differential: typed Go values (all integer widths incl. extremes, floats, bools, tricky strings, slices, maps, nested structs, pointers) are marshalled to YAML and bound through prefix, value placeholder, prop shorthand and literal twins built at run time; the prefix twin must equal the value, the other twins must equal the prefix twin, literals are bound as written.",
+  "design_ref": "DESIGN.md section 4, C17",
+  "note": "yaml.v3 marshalling and Viper reading are trusted; strings with placeholder delimiters excluded (C16 semantics).",
+  "technique": "property-based round-trip and differential testing (rapid) over run-time built struct types",
+ },
 }
